@@ -333,7 +333,10 @@ func (c *visitor) markExpr(env *adt.Environment, expr adt.Elem) {
 		}
 
 	case *adt.SliceExpr:
+		savedAll := c.all
+		c.all = true
 		c.markExpr(env, x.X)
+		c.all = savedAll
 		c.markExpr(env, x.Lo)
 		c.markExpr(env, x.Hi)
 		c.markExpr(env, x.Stride)
@@ -680,7 +683,14 @@ func (c *visitor) markClauses(env *adt.Environment, a []adt.Yielder) *adt.Enviro
 	for _, y := range a {
 		switch x := y.(type) {
 		case *adt.ForClause:
+			// The source is not a conjunct of the node being visited: the
+			// elements of a list or struct literal used as source never
+			// become arcs that dynamic mode descends into, so visit them
+			// here, as for call arguments.
+			saved := c.all
+			c.all = true
 			c.markExpr(env, x.Src)
+			c.all = saved
 			env = &adt.Environment{Up: env, Vertex: empty}
 			// In dynamic mode, iterate over all actual value and
 			// evaluate.
